@@ -151,7 +151,9 @@ class Ctx:
         md = tempfile.mkdtemp(prefix='md-', dir=self.scratch)
         # java is called directly (not through the `tlc` wrapper) so that -Xss is on the command
         # line: the launcher then gives the *main* thread (ASSUMEs, initial states) the big stack too.
-        cmd = ['timeout', str(timeout), 'java', '-Xss512m'] + list(jvm) + (['-Xmx' + heap] if heap else []) + [
+        jtmp = os.path.join(self.scratch, 'jtmp')       # TLC unpacks its standard modules into java.io.tmpdir: keep that inside the scratch directory
+        os.makedirs(jtmp, exist_ok=True)
+        cmd = ['timeout', str(timeout), 'java', '-Xss512m', '-Djava.io.tmpdir=' + jtmp] + list(jvm) + (['-Xmx' + heap] if heap else []) + [
                '-XX:+UseParallelGC', '-cp', TLA_CP, 'tlc2.TLC',
                '-workers', str(workers), '-metadir', md, '-fpmem', '0.05', '-config', cfg]
         if simulate:
